@@ -37,6 +37,7 @@ fn family(name: &str) -> GenCfg {
         panics: false,
         second_type: false,
         aba: false,
+        alternate: false,
     };
     match name {
         "mixed" => base,
@@ -66,6 +67,8 @@ fn family(name: &str) -> GenCfg {
         // from one type to the other while readers hold stale addresses
         // one rcu/cas caller against writers that put the very same pointer back (A-B-A inside the call)
         "rcuaba" => GenCfg { threads: (2, 3), aba: true, with_null: false, ..base },
+        // one reader alternating between two containers on the fallback path, writers on each
+        "helpab" => GenCfg { threads: (2, 3), containers: 2, strategy: 1, alternate: true, with_null: false, ..base },
         "xtype" => GenCfg { threads: (3, 4), second_type: true, w: [9, 3, 4, 1, 7, 3, 1, 1, 1], ops: (3, 7), with_null: false, ..base },
         other => panic!("unknown family {}", other),
     }
